@@ -182,8 +182,8 @@ Proof. exists max_int64. vm_compute. repeat split; try reflexivity; discriminate
 Print Assumptions bytesize_print_parse_refuted.
 
 (* the boundary of that finding: the largest size that still prints below 8192.00 PB parses back within the bound *)
-Example bytesize_print_parse_boundary :
-  bytesize_print (max_int64 - 5629499534214) = bs "8191.99 PB" /\
-  bytesize_print (max_int64 - 5629499534213) = bs "8192.00 PB" /\
-  bytesize_parse (bs "8191.99 PB") = Some 9223360777855707873.
+Example ex_bytesize_print_boundary :
+  bytesize_print 9223366407355241983 = bs "8191.99 PB" /\
+  bytesize_print 9223366407355241984 = bs "8192.00 PB" /\
+  bytesize_parse (bs "8191.99 PB") = Some 9223360777855707136.
 Proof. vm_compute. repeat split; reflexivity. Qed.
